@@ -48,15 +48,15 @@ theorem Ctx.baseTable {c : Case} (x : Ctx c) : baseTable c = x.tbl := by simp [A
 theorem Ctx.lastGet {c : Case} (x : Ctx c) : c.classes[x.tbl.length]? = some x.last := by
   rw [x.inv.2]; exact getLast_index x.hlast
 
-theorem known_nil {c : Case} (h : known c = []) : knownLegacy c = false ∧ knownPlainReexport c = false := by
+theorem known_nil {c : Case} (h : known c = []) : knownLegacy c = false := by
   unfold known at h
-  by_cases h1 : knownLegacy c = true <;> by_cases h2 : knownPlainReexport c = true <;> simp_all
+  by_cases h1 : knownLegacy c = true <;> simp_all
 
 theorem legacy_eq_mro {c : Case} (x : Ctx c) (hk : known c = []) (hkind : x.last.kind = .attrS)
     (hm : x.last.collectByMro = false) :
     collectLegacy (mroOf c.classes) x.tbl ((specOwn x.last).map (·.name)) x.last.mro.tail =
       collectMro (mroOf c.classes) x.tbl ((specOwn x.last).map (·.name)) x.last.mro.tail := by
-  have := (known_nil hk).1
+  have := known_nil hk
   simp only [knownLegacy, x.lastCls, x.baseTable, hkind, hm, beq_self_eq_true, Bool.not_false, Bool.true_and,
     bne_eq_false_iff_eq] at this
   exact this
@@ -71,13 +71,8 @@ theorem last_tail_lt {c : Case} (W : WfFacts c) (x : Ctx c) : ∀ m ∈ x.last.m
 theorem preList_eq_specPre {c : Case} (W : WfFacts c) (hk : known c = []) (x : Ctx c) :
     preList (mroOf c.classes) x.tbl x.last (byMroEff x.last) (specOwn x.last) = specPre c.classes x.last := by
   obtain ⟨hinv, hlen⟩ := x.inv
-  have hle : x.tbl.length ≤ c.classes.length := by omega
-  have hstray : strayPlain c.classes x.last.mro.tail = false := by
-    have := (known_nil hk).2
-    simpa [knownPlainReexport, x.lastCls] using this
-  have hcm := collectMro_eq_spec ((specOwn x.last).map (·.name)) hinv
-    (fun m hm => mro_facts W x.tbl.length m hm hle) (specFinalOwn_nodup W) x.last.mro.tail
-    (last_tail_lt W x) hstray
+  have hcm := collectMro_eq_spec ((specOwn x.last).map (·.name)) hinv (specFinalOwn_nodup W) x.last.mro.tail
+    (last_tail_lt W x)
   unfold preList specPre kwIf
   by_cases hb : byMroEff x.last = true
   · simp only [hb, if_true, hcm]
